@@ -20,8 +20,9 @@
     (tested against the real AnalysisHost by checks/C07.py: every query after every history vs a
     fresh host). *)
 From Coq Require Import List NArith Bool.
-From TG.Model Require Import Includes Host HostInst.
-From TG.Proofs Require Import IncludesGraph IncludesRefine HostHistory HostTheorems HostFrame HostTotal HostExamples.
+From TG.Model Require Import Includes Host HostInst FsOps.
+From TG.Gen Require Import GenFileSystem.
+From TG.Proofs Require Import IncludesGraph IncludesRefine HostHistory HostTheorems HostFrame HostTotal HostExamples GenFileSystemEq.
 Import ListNotations.
 Local Open Scope nat_scope.
 
@@ -88,6 +89,23 @@ Theorem C07_raw_api_refuted :
     view st1 <> view st2.
 Proof. exact raw_api_refuted. Qed.
 
+(** THE MODEL IS THE SOURCE (tie by translation + proof): the rendering of the CURRENT
+    crates/ide/src/analysis.rs AnalysisHost::{set_file_content, set_root_file} (TG.Gen.GenFileSystem,
+    regenerated on every run) equals [set_fc] / [Includes.set_root_file] for all arguments
+    (collect_sources itself: C16_model_is_source) *)
+Theorem C07_model_is_source :
+  forall (path istr : Type) (PA : PathAlg path istr) (w : world path istr),
+  (forall (db : @inputs path istr) f c,
+     gen_AnalysisHost_set_file_content (mk_gAnalysisHost db) f c = mk_gAnalysisHost (set_fc db f c)) /\
+  (forall fuel db fs root,
+     gen_AnalysisHost_set_root_file w (model_fso w) fuel (mk_gAnalysisHost db) fs root =
+     match set_root_file fuel w fs db root with
+     | Done (fs', db') => Done (mk_gAnalysisHost db', fs')
+     | OutOfFuel => OutOfFuel
+     | Panic e => Panic e
+     end).
+Proof. exact (@c07_model_is_source). Qed.
+
 Check C07_history_independent :
   forall (path istr : Type) (PA : PathAlg path istr) (PAok : PathAlgOk path istr)
          (w : world path istr) h p c fuel1 fuel2 (st1 st2 : @state path istr),
@@ -101,3 +119,4 @@ Print Assumptions C07_history_independent.
 Print Assumptions C07_queries.
 Print Assumptions C07_history_independent_total.
 Print Assumptions C07_raw_api_refuted.
+Print Assumptions C07_model_is_source.
